@@ -185,9 +185,9 @@ func (f *frame) specCall(fn *ssa.Function, args []*Val) (*Val, error) {
 	var rs []*Term
 	for i := range sym.ResSorts {
 		r := App(sym.names[i], sym.ResSorts[i], ts...)
-		f.e.noteRange(r, fn.Signature.Results().At(i).Type())
+		f.noteRange(r, fn.Signature.Results().At(i).Type())
 		if i < len(sym.ResIv) && sym.ResIv[i] != nil && !sym.Recursive && !sym.inProg {
-			f.e.noteIval(r, *sym.ResIv[i])
+			f.noteIval(r, *sym.ResIv[i])
 		}
 		rs = append(rs, r)
 	}
@@ -208,7 +208,7 @@ func (f *frame) quantifier(kind string, args []*Val) (*Val, error) {
 		return nil, err
 	}
 	bv := Const(fmt.Sprintf("bv!%d", f.e.nextBV()), s)
-	f.e.noteRange(bv, pt)
+	f.noteRange(bv, pt)
 	sub := f.child(fn, true)
 	sub.bound = true
 	sub.pure = true
@@ -373,7 +373,7 @@ func (f *frame) child(fn *ssa.Function, pure bool) *frame {
 	}
 	return &frame{e: f.e, c: f.c, fn: fn, pkg: f.pkg, vals: map[ssa.Value]*Val{}, pure: pure || f.pure, bound: f.bound,
 		st: f.st, reach: f.reach, oldSt: f.oldSt, depth: f.depth + 1, prefix: fmt.Sprintf("%s#%d!", fn.Name(), id), inline: f.inline,
-		triggers: f.triggers}
+		triggers: f.triggers, ranges: f.rangesEnv(), bounds: copyBounds(f.bounds), symc: f.symCells()}
 }
 
 // mergedResult combines the return values of a finished frame.
@@ -675,7 +675,7 @@ func (f *frame) callContract(fc *FuncContract, callee *ssa.Function, args []*Val
 			r := f.e.fresh(fmt.Sprintf("%scall!%s!r%d", f.prefix, sanitizeIdent(callee.Name()), i), s)
 			results = append(results, r)
 			f.assume(f.e.rangeFact(r, sig.Results().At(i).Type()))
-			f.e.noteRange(r, sig.Results().At(i).Type())
+			f.noteRange(r, sig.Results().At(i).Type())
 		}
 	}
 	pre := f.st.clone()
@@ -834,4 +834,22 @@ func (e *Engine) ifaceContract(from *ssa.Package, m *types.Func) *FuncContract {
 
 func (f *frame) callIfaceContract(fc *FuncContract, cc *ssa.CallCommon, args []*Val, pos token.Pos) (*Val, error) {
 	return nil, unsupported("interface contracts")
+}
+
+func (f *frame) rangesEnv() *rangeEnv {
+	if f.ranges == nil {
+		f.ranges = newRangeEnv()
+	}
+	return f.ranges
+}
+
+func copyBounds(m map[string]ival) map[string]ival {
+	if m == nil {
+		return nil
+	}
+	c := make(map[string]ival, len(m))
+	for k, v := range m {
+		c[k] = v
+	}
+	return c
 }
